@@ -74,6 +74,28 @@ def cases(draw):
                        ["new_cells", list(s.path), user]):
                 ops.append(op)
                 gen.apply_ref(G, op)
+    # a reference (model-level, own, or inherited) whose name shadows a built-in, read by a formula
+    if draw(st.integers(0, 2)) == 0:
+        spaces = G.all_spaces()
+        s = draw(st.sampled_from(spaces))
+        nm = draw(st.sampled_from(["pow", "len", "round", "id", "divmod"]))
+        where = draw(st.sampled_from(["model", "own", "base"]))
+        holder = []
+        if where == "own":
+            holder = list(s.path)
+        elif where == "base":
+            bases = [b for b in s.bases]
+            holder = list(bases[0]) if bases else list(s.path)
+        if G.find_cells(s, "c6") is None and G.find_cells(s, nm) is None and nm not in s.children \
+                and all(nm not in t.children and G.find_cells(t, nm) is None for t in spaces):
+            user = {"name": "c6", "params": [["x", None]],
+                    "expr": ["bin", "+", ["var", "x"], ["name", nm]],
+                    "cached": draw(st.booleans()), "allow_none": None, "form": draw(st.sampled_from(["lambda", "def"])),
+                    "tick": False}
+            for op in (["set_ref", holder, nm, ["v", draw(st.integers(100, 199))], None],
+                       ["new_cells", list(s.path), user]):
+                ops.append(op)
+                gen.apply_ref(G, op)
     # pickled (non-literal) references
     for j, s in enumerate(G.all_spaces()[:2]):
         if draw(st.booleans()):
@@ -118,7 +140,7 @@ def features(case):
         f.add("itemspace")
     if '"add_bases"' in src:
         f.add("inheritance")
-    if '"name": "max"' in src or '"name": "min"' in src:
+    if '"name": "max"' in src or '"name": "min"' in src or '"name": "c6"' in src or '"name": "c5"' in src:
         f.add("shadow")
     if '"lam"' in src or '"sum"' in src or '"lst"' in src:
         f.add("nested-scope")
